@@ -152,7 +152,11 @@ func vf01PD(f []string) string {
 	// pd <net dec> <nbits> <plen> ; ops
 	nb, _ := strconv.Atoi(f[2])
 	pl, _ := strconv.Atoi(f[3])
-	network := netip.PrefixFrom(vf01Addr("6:"+f[1]), nb)
+	nt := f[1] // <dec> (IPv6) or 4:<dec> / 6:<dec>
+	if !strings.Contains(nt, ":") {
+		nt = "6:" + nt
+	}
+	network := netip.PrefixFrom(vf01Addr(nt), nb)
 	p := NewPrefixAllocator(network, pl)
 	if p == nil {
 		return "nilalloc"
@@ -540,7 +544,8 @@ func vf01Reg(f []string) string {
 
 // Cases whose first token starts with "x" (xpool, xpd, xreg) may not terminate or may exhaust memory
 // (that is what they probe): they run in a child process of the same test binary, which gives up
-// when its heap passes 192 MiB or after 1.5 s and reports "hang".
+// when its heap passes 192 MiB (the detector: a range loop that does not stop allocates without bound) or,
+// as a backstop, after 20 s, and reports "hang".
 func vf01Probe(line string) string {
 	cmd := exec.Command(os.Args[0], "-test.run", "^TestVerifC01Child$", "-test.count=1")
 	cmd.Env = append(os.Environ(), "VERIF_C01_CHILD="+line)
@@ -553,7 +558,7 @@ func vf01Probe(line string) string {
 	go func() { done <- cmd.Wait() }()
 	select {
 	case <-done:
-	case <-time.After(15 * time.Second):
+	case <-time.After(45 * time.Second):
 		cmd.Process.Kill()
 		<-done
 		return "hang"
@@ -577,7 +582,7 @@ func TestVerifC01Child(t *testing.T) {
 		for {
 			time.Sleep(2 * time.Millisecond)
 			runtime.ReadMemStats(&m)
-			if m.HeapAlloc > 192<<20 || time.Since(start) > 1500*time.Millisecond {
+			if m.HeapAlloc > 192<<20 || time.Since(start) > 20*time.Second {
 				fmt.Println("VERIF-RESULT hang")
 				os.Exit(0)
 			}
